@@ -65,6 +65,10 @@ def showPairs (ps : List (Nat × Nat)) : String :=
 def isPermOfRange (N : Nat) (π : List Nat) : Bool :=
   π.length == N && (List.range N).all fun i => π.contains i
 
+/-- `floor(0.04 * N * N)` in IEEE double arithmetic, evaluated left to right as in the C++ source -/
+def fl004 (N : Nat) : Nat :=
+  (Float.floor ((0.04 : Float) * N.toFloat * N.toFloat)).toUInt64.toNat
+
 def errName : Spe.Err → String
   | .oob => "ERR:oob"
   | .divzero => "ERR:divzero"
@@ -73,7 +77,7 @@ def answerSpeDef (fs : List (String × String)) : String :=
   match field? fs "N" >>= String.toNat?, field? fs "g" >>= String.toNat?, field? fs "T" >>= String.toNat?,
         field? fs "nup" >>= String.toNat? with
   | some N, some g, some T, some nup =>
-    s!"iters={Spe.maxIter N T (g != 0)} nup={Spe.clampUpdates N nup}"
+    s!"iters={Spe.maxIter N T (g != 0) (fl004 N)} nup={Spe.clampUpdates N nup} flok={if Spe.defaultItersContract N (fl004 N) then 1 else 0}"
   | _, _, _, _ => "bad-case"
 
 def answerSpe (fs : List (String × String)) : String :=
@@ -104,8 +108,8 @@ def answerSpe (fs : List (String × String)) : String :=
         { N := N, d := d, inPlace := Gen.spePartnersInPlace, global := global, nb := nb, nupReq := nup, maxIterReq := T, tol := tol,
           dist := fun a b => dmA.getD (a * N + b) 0,
           y0 := y0A, shuffle := fun t => permsA.getD t [], unif := fun c => unifA.getD c 0,
-          sqrtO := if full then sqrtR else fun _ => 0, floorO := Rat.floor }
-      let iters := Spe.maxIter N T global
+          sqrtO := if full then sqrtR else fun _ => 0, floorO := Rat.floor, fl004 := fl004 N }
+      let iters := Spe.maxIter N T global (fl004 N)
       let nupc := Spe.clampUpdates N nup
       let permsok := (perms.take iters).all (isPermOfRange N) && iters ≤ perms.length
       let kS := match Spe.kOf global nb with | .ok k => toString k | .error _ => "oob"
